@@ -472,6 +472,39 @@ def list_fill(ex, paths, fn, value, elem_ty_rx=None):
     return None
 
 
+COPY_RX = r"<impl \[.*\]>::(to_vec|to_owned|into_vec)$|borrow::ToOwned>::to_owned$|clone::Clone>::clone$|convert::(Into|From)<.*>>::(into|from)$|Vec::<.*>::as_slice$|Deref>::deref$|AsRef<.*>>::as_ref$|Borrow<.*>>::borrow$|FromIterator<.*>>::from_iter(::<.*>)?$|Iterator>::(cloned|copied|collect)(::<.*>)?$|<impl \[.*\]>::iter$|IntoIterator>::into_iter$"
+
+
+def delegates_to(F, fn, other):
+    """Does `fn` do nothing but hand an (owned or borrowed) copy of its single data parameter to `other` and return what
+    `other` returns (`Self::try_from(modes.to_vec())`)?  Then everything the rules establish about `other` holds for `fn`.
+    Returns the printed argument or None."""
+    ex, paths = run_fn(fn, F, LogModel(), desugar=None, inline=lambda n: False, max_paths=200)
+    rets = ret_paths(paths)
+    if ex.truncated or not rets or any(p.end[0] not in ("return", "dead") for p in paths):
+        return None
+    det = None
+    for p in rets:
+        cs = [e for e in p.events if e[0] == "call" and (e[5].get("resolved") == other.key or e[5].get("callee") == other.key)]
+        others = [e for e in p.events if e[0] == "call" and e not in cs and not re.search(COPY_RX, e[2])]
+        if len(cs) != 1 or others or p.end[1] != cs[0][4]:
+            return None
+        a = cs[0][3][0]
+        n_ = 0
+        while n_ < 8:
+            n_ += 1
+            if a[0] == "ref":
+                a = ex.deref_val(p, a)
+            elif a[0] == "app" and re.search(COPY_RX, str(a[1])) and len(a[2]) == 1:
+                a = a[2][0]
+            else:
+                break
+        if not (a[0] == "sym" and a[1] in fn.names().values()):
+            return None
+        det = "%s(copy of %s)" % (M.short_name(other.name), a[1])
+    return det
+
+
 def char_tests(conds):
     """[(tested term, char, is_equal)] for `x == 'c'`, `'c' == x`, `x != 'c'` and `match x { 'c' => .. }` (a switch on the
     char value), with the outcome each path assumed."""
